@@ -448,6 +448,24 @@ def r3(ctx, chk):
     except _Unknown as e_:
         chk.error(rule, "parse_with_formats: the period is decided by something this rule cannot evaluate (%s)" % e_)
         return
+    # when both parts are completed the month comes first: the 'last'/'current' day is derived from the month the date ends up in
+    g_ = CFG(pf.node)
+    lp_ids = set(g_.nodes_of(loops[0]))
+
+    def stmts_calling(name):
+        return [st for st in iter_own_stmts(loops[0].body) if not isinstance(st, (ast.If, ast.For, ast.While, ast.Try, ast.With))
+                and any(isinstance(c_, ast.Call) and ast.unparse(c_.func) == name for c_ in ast.walk(st))]
+    days, months = stmts_calling("set_correct_day_from_settings"), stmts_calling("set_correct_month_from_settings")
+    if days and months:
+        bad_order = False
+        for d_ in days:
+            after = g_.reachable_from(list(g_.nodes_of(d_)), avoid=frozenset(lp_ids))
+            if any(set(g_.nodes_of(m_)) & after for m_ in months):
+                bad_order = True
+        chk.ob(rule, "custom formats: a missing month is completed before a missing day", not bad_order,
+               "set_correct_month_from_settings can run after set_correct_day_from_settings in the same iteration: the day is clamped / chosen for "
+               "the month strptime defaulted to (January), not for the month the preference then puts in",
+               key={"table": "format period", "directive": "*", "part": "order"}, file=pf.file, function=pf.qual, line=days[0].lineno)
     chk.ob(rule, "custom formats: period year/year/month for (month+day | month | day) missing", got == want,
            "(month missing, day missing) -> period: %s" % {k: v for k, v in got.items() if want[k] != v},
            key={"table": "format period", "directive": "*", "part": "*"}, file=pf.file, function=pf.qual, line=pf.node.lineno)
